@@ -91,6 +91,32 @@ fn check_lifecycle(events: &[(String, String)], n_remotes: usize) -> Result<Vec<
     Ok((0..n_remotes).map(|r| (starts[r], live[r])).collect())
 }
 
+/// `Debug` output of the real `RemoteMap` (sender map with each inbox channel's counters, task set, cleanup waker, mapped
+/// addresses, metrics) with pointer values masked. Used only to decide whether a stimulus left the implementation untouched.
+fn map_fingerprint(map: &Map) -> String {
+    let d = format!("{map:?}");
+    let mut out = String::with_capacity(d.len());
+    let mut it = d.chars().peekable();
+    while let Some(c) = it.next() {
+        out.push(c);
+        if c == '0' && it.peek() == Some(&'x') {
+            out.push(it.next().unwrap());
+            while it.peek().is_some_and(|h| h.is_ascii_hexdigit()) {
+                it.next();
+            }
+            out.push('_');
+        }
+    }
+    out
+}
+
+/// number of state instances that are inside their main loop (started, not stopped, not parked at the gate before `inbox.close()`)
+fn running_instances(events: &[(String, String)]) -> usize {
+    let starts = events.iter().filter(|(l, _)| l == "remote_state.start").count();
+    let stops = events.iter().filter(|(l, _)| l == "remote_state.stop").count();
+    starts.saturating_sub(stops).saturating_sub(seams::waiting(GATE))
+}
+
 async fn run_case(stimuli: &[Stim], n_remotes: usize) -> Outcome {
     seams::reset_local();
     seams::arm(GATE);
@@ -104,6 +130,7 @@ async fn run_case(stimuli: &[Stim], n_remotes: usize) -> Outcome {
         let ev_before = seams::events_snapshot().len();
         let waiting_before = seams::waiting(GATE);
         let senders_before: Vec<bool> = (0..n_remotes).map(|r| map.has_sender(remote(r))).collect();
+        let fp_before = map_fingerprint(&map);
         let mut changed = false;
         match *s {
             Stim::ResolveAddr(r) | Stim::ResolveEmpty(r) => {
@@ -142,7 +169,11 @@ async fn run_case(stimuli: &[Stim], n_remotes: usize) -> Outcome {
         settle().await;
         let ev_after = seams::events_snapshot().len();
         let senders_after: Vec<bool> = (0..n_remotes).map(|r| map.has_sender(remote(r))).collect();
-        let step_noop = !changed && ev_after == ev_before && seams::waiting(GATE) == waiting_before && senders_after == senders_before;
+        // "no effect" must hold for the implementation, not only for what the harness watches: the real map's own state
+        // (Debug fingerprint) must be unchanged, and time may only be called a pure shift when no instance is inside its
+        // main loop (a running instance has timers — idle deadline, connection check — that 61 s move even if nothing fires)
+        let impl_untouched = map_fingerprint(&map) == fp_before && !(matches!(s, Stim::Advance) && running_instances(&seams::events_snapshot()) > 0);
+        let step_noop = !changed && ev_after == ev_before && seams::waiting(GATE) == waiting_before && senders_after == senders_before && impl_untouched;
         if i + 1 == stimuli.len() {
             noop = step_noop;
         }
@@ -263,7 +294,7 @@ fn main() {
     let ctx = Ctx::from_args("C21", Level::ModelChecking);
     // (number of remotes, depth bound) explored one after the other
     let configs: Vec<(usize, usize)> = ctx.pick(vec![(1, 7)], vec![(1, 9), (2, 6)]);
-    ctx.set_rule("every sequence of stimuli {resolve_remote with address, resolve_remote without address, direct RemoteInfo through the shared sender map (per remote), advance 61 s, release the oldest actor parked before inbox.close(), one poll of cleanup} up to the depth bound, each executed from scratch on a fresh RemoteMap under the paused clock with a settle (run to quiescence) after every stimulus and a final drain; a sequence whose last stimulus had no observable effect (no event, no gate/sender change, nothing accepted) is evaluated but not extended; distinct = (instance counts, leftover hand-offs, direct-send results) x set of answers");
+    ctx.set_rule("every sequence of stimuli {resolve_remote with address, resolve_remote without address, direct RemoteInfo through the shared sender map (per remote), advance 61 s, release the oldest actor parked before inbox.close(), one poll of cleanup} up to the depth bound, each executed from scratch on a fresh RemoteMap under the paused clock with a settle (run to quiescence) after every stimulus and a final drain; a sequence whose last stimulus had no effect (no event, no gate/sender change, nothing accepted, the Debug fingerprint of the real RemoteMap unchanged, and — for the 61 s advance — no state instance inside its main loop whose timers it could move) is evaluated but not extended; distinct = (instance counts, leftover hand-offs, direct-send results) x set of answers");
     ctx.assume("single-threaded runtime: interleavings inside one poll exist only at the gate before inbox.close(); AddConnection (needs a live QUIC connection) shares send_to_actor with resolve_remote and is not driven; no address-lookup service configured, so a resolve without any known address is answered with an error at once");
     ctx.bound("remotes_x_depth", &configs);
     ctx.min_outcomes(8);
